@@ -216,9 +216,11 @@ def clash_paths(pred: dict) -> set[tuple]:
     return {p for p, rs in seen.items() if len(rs) > 1}
 
 
-def below_clash(pred: dict, *paths) -> bool:
+def at_clash(pred: dict, *paths) -> bool:
+    """one of the module paths IS such a name (the module file that is shadowed / whose package file was merged with
+    another one); modules merely below it are not the finding"""
     cl = clash_paths(pred)
-    return any(tuple(p[:k]) in cl for p in paths if p is not None for k in range(1, len(p) + 1))
+    return any(tuple(p) in cl for p in paths if p is not None)
 
 
 def tree_correspondence_co(ck: Check, camp, case: dict, files: dict[str, str], pred: dict):
